@@ -42,14 +42,14 @@ def _register_decode_glue():
                 return ("ARG", opcode, arg)
             ns["to_arg"] = to_arg
             doc = {"module": None, "fn-doc": "the doc", "fn-emptydoc": "", "fn-nodoc": None}[kind]
-            tp = None if kind == "module" else Function(Args(("p",), ("a",)), doc)
+            tp = None if kind == "module" else Function(Args(("p",), ("a",), "rest", ("k",), "kw"), doc)
             args = tp.args if tp else Args()
             consts = (doc if doc is not None else None, 1)
             lines = {0: 10, 2: 11}
             for o in range(4, nxt1, 2):
                 lines[o] = 11
             lm = L.LineMapping(dict(lines), {2: [0, 5]})
-            names, varnames, freevars, cellvars = ("n0",), ("p", "a", "loc"), ("fv",), ("cv",)
+            names, varnames, freevars, cellvars = ("n0",), ("p", "a", "k", "rest", "kw", "loc"), ("fv",), ("cv",)
             blocks, additional = ns["bytes_to_blocks"]("CODE-BYTES", lm, names, varnames, freevars, cellvars, consts, tp, args)
             calls = [e for e in log if e[0] == "to_arg"]
             ctx.prove("glue._parse_bytes_receives_co_code", z3.BoolVal(log[0] == ("_parse_bytes", "CODE-BYTES")))
@@ -60,7 +60,9 @@ def _register_decode_glue():
                 ctx.prove("glue.to_arg_receives_the_tables_in_order(names, varnames, freevars, cellvars, constants)",
                           z3.BoolVal(tables[0]._args is names and tables[1]._args is varnames and tables[2] is freevars and tables[3]._args is cellvars and tables[4]._args is consts))
             seeded_vars, seeded_consts = calls[0][5], calls[0][6]       # snapshots taken when the first instruction was decoded
-            ctx.prove("seed.parameters_count_as_found_in_order", z3.BoolVal(seeded_vars == ({0: 0, 1: 1} if tp else {})))
+            ctx.prove("seed.parameters_count_as_found_in_order", z3.BoolVal(seeded_vars == ({i: i for i in range(5)} if tp else {})), detail=repr(seeded_vars))
+            from code_data._constants import constant_key as _ck
+            ctx.prove("seed.constants_are_identified_by_the_encoder's_key_function", z3.BoolVal(calls[0][4][4]._hash_fn is _ck))
             ctx.prove("seed.docstring_slot_counts_as_found_iff_there_is_a_docstring(incl. the empty string)",
                       z3.BoolVal((0 in seeded_consts) == (doc is not None)), detail="docstring %r, found %r" % (doc, seeded_consts))
             flat = [i for b in blocks for i in b]
@@ -75,7 +77,7 @@ def _register_decode_glue():
                 ctx.prove("post.n_args_not_recorded_for_non_jumps", z3.BoolVal(flat[1]._n_args_override is None and flat[1].arg == ("ARG", opj, arg1)))
             unfound_names = 1
             ctx.prove("post.additional_args_list_every_table_entry_no_instruction_used", z3.BoolVal(
-                [type(a).__name__ for a in additional] == ["Name"] * 1 + ["Varname"] * (1 if tp else 3) + ["Cellvar"] + ["Constant"] * (1 if doc is not None else 2)),
+                [type(a).__name__ for a in additional] == ["Name"] * 1 + ["Varname"] * (1 if tp else 6) + ["Cellvar"] + ["Constant"] * (1 if doc is not None else 2)),
                 detail=repr(additional))
         harness("blocks.bytes_to_blocks.call_sites[%s,units=%d,%s]" % (kind, n_args, second), props=["C02", "C13", "C09", "C01"],
                 functions=["code_data._blocks.bytes_to_blocks"], configs="all",
@@ -100,6 +102,10 @@ def _register_encode_glue():
                     Instruction(opn("haslocal"), Varname("loc"), line_number=4), Instruction(opn("hasfree"), Cellvar("cell"), line_number=4),
                     Instruction(opn("hasfree"), Freevar("fv"), line_number=5), Instruction("RETURN_VALUE", line_number=5))
             code, lm, names, varnames, cellvars, constants = f((body,), (), ("fv",), tp)
+            # an unreferenced cell variable (kept as an additional arg) still shifts the free-variable operands
+            code2, _, _, _, cellvars2, _ = f((body,), (Cellvar("unused_cell", 1),), ("fv",), tp)
+            units2 = [(code2[i], code2[i + 1]) for i in range(0, len(code2), 2)]
+            ctx.prove("post.free_variable_operand_counts_unreferenced_cells_too", z3.BoolVal(cellvars2 == ("cell", "unused_cell") and units2[4][1] == 2 and units2[3][1] == 0), detail=repr((cellvars2, units2[3:5])))
             if tp:
                 ctx.prove("post.co_varnames_starts_with_the_parameters_in_CPython_layout(positional, keyword-only, *args, **kwargs)",
                           z3.BoolVal(varnames[:5] == ("p", "a", "k", "rest", "kw") and varnames[5:] == ("loc",)), detail=repr(varnames))
@@ -232,3 +238,24 @@ def _register_relax():
 
 
 _register_relax()
+
+
+@harness("blocks.tables_roundtrip[key-duplicate constants]", props=["C01", "C09"], functions=["code_data._blocks.bytes_to_blocks", "code_data._blocks.blocks_to_bytes"], configs="all", engine="E2",
+         notes="bounded: the real decoder and encoder on tables holding key-duplicate constants (two distinct NaN objects, two equal tuples, 0.0/-0.0 which are NOT duplicates): the constant "
+               "table and the operands are reproduced exactly, whatever builtin hash() does with NaN on the host")
+def h_dups(ctx, cfg):
+    ns = b2b_ns()
+    T = cfg.tables
+    ld = T["hasconst"][0]
+    nan1, nan2 = float("nan"), float("nan")
+    for consts, loads in ([(nan1, nan2, None), [0, 1, 0, 1, 2]], [((1, 2), (1, 2), 0.0, -0.0), [0, 1, 2, 3]], [(nan1, (nan2,), (nan1,)), [2, 1, 0]], [(1, True, 1.0, nan1, nan2), [4, 3, 2, 1, 0]]):
+        seq = [(ld, a, 1, 2 * i, 2 * i + 2) for i, a in enumerate(loads)]
+        ns["_parse_bytes"] = lambda b, seq=seq: iter(seq)
+        ns["to_arg"] = B.to_arg
+        lm = L.LineMapping({2 * i: 1 for i in range(len(loads))}, {})
+        blocks, additional = ns["bytes_to_blocks"]("CODE", lm, (), (), (), (), consts, None, Args())
+        code, lm2, names, varnames, cellvars, constants = B.blocks_to_bytes(blocks, additional, (), None)
+        ops = [code[i + 1] for i in range(0, len(code), 2)]
+        same = len(constants) == len(consts) and all(type(a) is type(b) and (a == b or repr(a) == repr(b)) for a, b in zip(constants, consts))
+        ctx.prove("tables.constants_reproduced_entry_for_entry", z3.BoolVal(same), detail="%r -> %r" % (consts, constants))
+        ctx.prove("tables.operands_reproduced", z3.BoolVal(ops == loads), detail="%r -> %r" % (loads, ops))
